@@ -1933,7 +1933,10 @@ class Controller:
         returncode = returncode if returncode is not None else component.engine.exitReason()
 
         # VV: @tag:RestartEngines
-        if exitReason in component.specification.workflowAttributes.get('restartHookOn', []):
+        # VV: restartHookOn may list SubmissionFailed, resubmissions must still go through the branch below which
+        # enforces the maximum number of resubmission attempts (the engine never invokes the hook for them anyway)
+        if exitReason != experiment.model.codes.exitReasons["SubmissionFailed"] \
+                and exitReason in component.specification.workflowAttributes.get('restartHookOn', []):
             try:
                 self.log.info("Attempting to restart due to %s %s (times so far: %d)" % (
                     component.specification.reference, exitReason, component.engine.restarts))
